@@ -67,6 +67,20 @@ pub fn wl_c13(seed: u64, tier: &str) -> Vec<Vec<Value>> {
         }
     }
     sessions.push(std::mem::replace(&mut ops, vec![]));
+    // history: identical (msg, dst, byte length) through every expander and every field, back to
+    // back on one thread (a result must not depend on what was hashed just before)
+    for round in 0..2 {
+        let msg = r.bytes(20 + 30 * round);
+        let dst = r.bytes(16);
+        for x in XS.iter().chain(XS.iter().rev()) {
+            let is_xmd = x.starts_with("xmd");
+            ops.push(json!({"op": "h2f", "f": "Fq", "x": x, "msg": bytes_to_j(&msg), "dst": bytes_to_j(&dst), "count": 2, "cls": "same-input-other-expander"}));
+            ops.push(json!({"op": "h2f", "f": "Fq2", "x": x, "msg": bytes_to_j(&msg), "dst": bytes_to_j(&dst), "count": 1, "cls": "same-input-other-expander"}));
+            ops.push(json!({"op": if is_xmd {"xmd"} else {"xof"}, "x": x, "msg": bytes_to_j(&msg), "dst": bytes_to_j(&dst), "len": 128, "cls": "same-input-other-expander"}));
+            ops.push(json!({"op": "h2f", "f": "Fr", "x": x, "msg": bytes_to_j(&msg), "dst": bytes_to_j(&dst), "count": 2, "cls": "same-input-other-expander"}));
+        }
+        sessions.push(std::mem::replace(&mut ops, vec![]));
+    }
     // from_okm / from_ro on chosen blocks
     let fq = fq_info();
     let fr = fr_info();
@@ -143,6 +157,14 @@ pub fn wl_c06(seed: u64, tier: &str) -> Vec<Vec<Value>> {
                     chunk(&mut sessions, &mut ops, if *g == "G1" { 3 } else { 1 });
                 }
             }
+        }
+        sessions.push(ops);
+        // the same (msg, dst) through every suite back to back (history independence)
+        let msg = r.bytes(33);
+        let dst = r.bytes(20);
+        let mut ops = vec![];
+        for x in XS.iter() {
+            ops.push(json!({"op": "h2c", "g": g, "x": x, "mode": "nu", "msg": bytes_to_j(&msg), "dst": bytes_to_j(&dst), "cls": "same-input-other-suite"}));
         }
         sessions.push(ops);
     }
